@@ -74,3 +74,9 @@ Theorem C05_spec_side_accepts_model : forall w st leaf, c_crl leaf <> [] ->
   Run.C05.c05_spec w st leaf (cr_result (fst (crl_check (w_fetch w) (w_now w) st (c_serial leaf) (c_freshest leaf) (c_crl leaf)))) = 0%Z.
 Proof. exact model_passes_c05_spec. Qed.
 Print Assumptions C05_spec_side_accepts_model.
+
+(* time only invalidates: no bundle refused now is accepted later *)
+Theorem C05_expired_stays_refused : forall now now' b, now <= now' ->
+  validate_bundle now b = false -> validate_bundle now' b = false.
+Proof. exact expired_stays_refused. Qed.
+Print Assumptions C05_expired_stays_refused.
